@@ -520,6 +520,11 @@ doneLit:
 			for a := 0; a < 2+r.Intn(2); a++ {
 				fn.Args = append(fn.Args, &GField{ID: a + 1, Name: g.id("a"), T: g.fieldType(i, incs, 2)})
 			}
+			if r.Chance(40) { // argument defaults are resolved like field defaults (4fd3a1e)
+				e0 := s.enums[0]
+				fn.Args = append(fn.Args, &GField{ID: len(fn.Args) + 1, Name: g.id("a"), T: ref(e0.Name), Default: e0.Name + "." + e0.Values[0].Name},
+					&GField{ID: len(fn.Args) + 2, Name: g.id("a"), T: base("i32"), Default: s.intConst[0]})
+			}
 			nt := 1 + r.Intn(2)
 			if q == 0 {
 				nt = 2
